@@ -15,6 +15,7 @@ OBLIGATIONS.append(ob('C02.operands', 'verif_frag::evalshim::c02_operands', 'ope
 for _n in ['eq', 'ne', 'eeq', 'ene', 'gt', 'gte', 'lt', 'lte', 'rx', 'notrx', 'like', 'notlike', 'between']:
     OBLIGATIONS.append(ob(f'C02.op.table.{_n}', OPS + f'c11_op_{_n}', f'Op::from maps every documented spelling of the operator `{_n}` to that operator (same harness as C11.alias.op.{_n})', engine='K', units=['operators']))
 OBLIGATIONS.append(ob('C02.op.negation', OPS + 'c03_negate_contract', 'each negative operator is the documented complement of its positive counterpart: contract of Op::negate (same as C03.negate.pairs)', engine='K', units=['operators'], twin=OPS + 't03_negate_pairs'))
+OBLIGATIONS.append(ob('C02.cmp.int.fractional', CMP + 'c02_cmp_int_fractional', 'Int arm of conforms with a right-hand value k + 0.5 (all i32 k) against all i32 column values: compared as real numbers for all 8 operators, never truncated', units=['cmp'], complete=False, bound='column value and k in i32, fraction .5'))
 CANARIES = [dict(harness=CMP + 'canary_cmp_must_fail', units=['cmp'])]
 ASSUMPTIONS = ['float arm: stated for non-NaN operands', 'date arm: start <= finish']
 NOT_COVERED = ['get_field_value: which attribute is compared', 'literal -> number coercion (Variant::to_int / to_float, parse_filesize as a whole)', 'string arm (regex)', 'type dispatch on field_value.get_type()']
